@@ -4,8 +4,7 @@
   exceptions as an error value.
 
   `MessageBuffer.events` (order -> list of groups, grown by `_add_event` under `_prev_order`)
-  is kept as the log of `(order, event)` pairs; the groups of an order are the maximal runs
-  of adjacent log entries with that order (`groupsOf`).
+  is a finite map given as a function `Nat → Option (List (List MEv))`.
 -/
 import Genshi.Model.I18nCore
 namespace Genshi.I18n
@@ -31,19 +30,31 @@ inductive MEv where
   | ev (e : TEvent)
   deriving Repr, Inhabited
 
+abbrev Groups := Nat → Option (List (List MEv))
+
 structure MB where
   params : List Str
   str : Str                          -- ''.join(self.string)
-  log : List (Nat × MEv)             -- `_add_event` calls in order
+  events : Groups                    -- `self.events`
+  prevOrder : Option Nat             -- `self._prev_order`
   values : List (Str × TEvent)       -- latest binding first
   depth : Int
   order : Nat
   stack : List Nat                   -- top first
   subdirs : List (Nat × List Dir)
-  deriving Repr, Inhabited
 
 def MB.new (params : List Str) : MB :=
-  { params := params, str := [], log := [], values := [], depth := 1, order := 1, stack := [0], subdirs := [] }
+  { params := params, str := [], events := fun _ => none, prevOrder := none, values := [], depth := 1,
+    order := 1, stack := [0], subdirs := [] }
+
+/-- append to the last list of a list of lists -/
+def appendLast {α} : List (List α) → α → List (List α)
+  | [], x => [[x]]
+  | [g], x => [g ++ [x]]
+  | g :: gs, x => g :: appendLast gs x
+
+def setGroups (ev : Groups) (k : Nat) (gs : List (List MEv)) : Groups :=
+  fun j => if j = k then some gs else ev j
 
 /-- `'%d' % n` -/
 def natStrAux : Nat → Nat → Str → Str
@@ -67,7 +78,13 @@ def extendAssoc (m : List (Nat × List Dir)) (k : Nat) (ds : List Dir) : List (N
   if m.any (fun p => p.1 = k) then m.map (fun p => if p.1 = k then (p.1, p.2 ++ ds) else p)
   else m ++ [(k, ds)]
 
-def MB.add (b : MB) (order : Nat) (e : MEv) : MB := { b with log := b.log ++ [(order, e)] }
+/-- `MessageBuffer._add_event(order, event)` -/
+def MB.add (b : MB) (order : Nat) (e : MEv) : MB :=
+  if b.prevOrder = some order then
+    { b with events := setGroups b.events order (appendLast ((b.events order).getD []) e) }
+  else
+    { b with prevOrder := some order,
+             events := setGroups b.events order ((b.events order).getD [] ++ [[e]]) }
 
 mutual
   /-- `MessageBuffer.append(kind, data, pos)` -/
@@ -200,26 +217,12 @@ def yieldParts (vs : List (Str × TEvent)) (s : Str) : Except Err (List TEvent) 
       | some e => pure (acc ++ [e])
       | none => .error .keyError) []
 
-/-- maximal runs of adjacent log entries with the same order -/
-def runs : List (Nat × MEv) → List (Nat × List MEv)
-  | [] => []
-  | (k, e) :: rest =>
-      match runs rest with
-      | (k', g) :: more => if k = k' then (k, e :: g) :: more else (k, [e]) :: (k', g) :: more
-      | [] => [(k, [e])]
-
-/-- `self.events[order]`: `none` when the order never got an event -/
-def groupsOf (log : List (Nat × MEv)) (k : Nat) : Option (List (List MEv)) :=
-  let gs := (runs log).filter (fun r => r.1 = k)
-  if gs.isEmpty then none else some (gs.map Prod.snd)
-
 /-- state of the generator `translate`: remaining groups per order, the open sub-stream, output -/
 structure TrState where
-  rem : List (Nat × List (List MEv))
+  rem : Groups
   sub : Option (List TEvent)
   out : List TEvent
   badSub : Bool := false      -- a SUB event was emitted with `None` as its sub-stream
-  deriving Repr, Inhabited
 
 def TrState.emit (st : TrState) (es : List TEvent) : TrState :=
   match st.sub with
@@ -230,9 +233,6 @@ def assocGet {β} (m : List (Nat × β)) (k : Nat) : Option β :=
   match m.find? (fun p => p.1 = k) with
   | some p => some p.2
   | none => none
-
-def assocSet {β} (m : List (Nat × β)) (k : Nat) (v : β) : List (Nat × β) :=
-  m.map (fun p => if p.1 = k then (k, v) else p)
 
 /-- `if string: ...yield_parts(string)...; string = None` -/
 def flushPending (vs : List (Str × TEvent)) (st : TrState) (pending : Option Str) : Except Err (TrState × Option Str) :=
@@ -271,12 +271,12 @@ def runGroup (b : MB) (order : Nat) : List MEv → TrState → Option Str → Ex
 def runParts (b : MB) : List (Nat × Str) → TrState → Except Err TrState
   | [], st => pure st
   | (order, s) :: ps, st =>
-      match assocGet st.rem order with
+      match st.rem order with
       | none => .error .keyError
       | some gs =>
-        let (g, rem') : List MEv × List (Nat × List (List MEv)) :=
+        let (g, rem') : List MEv × Groups :=
           match gs with
-          | g :: more => (g, assocSet st.rem order more)
+          | g :: more => (g, setGroups st.rem order more)
           | [] => ([.ev (.text [])], st.rem)
         do
           let (st1, pending) ← runGroup b order g { st with rem := rem' } (some s)
@@ -284,15 +284,10 @@ def runParts (b : MB) : List (Nat × Str) → TrState → Except Err TrState
           let (st2, _) ← flushPending b.values st1 pending
           runParts b ps st2
 
-/-- the orders that have events, with their groups -/
-def allGroups (log : List (Nat × MEv)) : List (Nat × List (List MEv)) :=
-  let rs := runs log
-  (rs.map Prod.fst).eraseDups.map fun k => (k, (rs.filter (fun r => r.1 = k)).map Prod.snd)
-
 /-- `MessageBuffer.translate(string)` -/
 def MB.translate (b : MB) (s : Str) : Except Err (List TEvent) := do
   let parts ← parseMsg s
-  let st ← runParts b parts { rem := allGroups b.log, sub := none, out := [] }
+  let st ← runParts b parts { rem := b.events, sub := none, out := [] }
   if st.badSub then .error .typeError else pure st.out
 
 /-! ### MsgDirective.__call__ -/
